@@ -691,7 +691,8 @@ def main():
             for i in base_ids:
                 shapes.append(derive_shape(shapes[i], e, a))
                 for lv in deriv_limits:
-                    if a == "new_state_block" and (lv is None or lv >= 500):
+                    lvf = level_in_force(shapes[-1], lv)
+                    if a == "new_state_block" and (lvf is None or lvf >= 500):
                         continue     # (see in_force: the shifted limit must stay below the clamp)
                     if fits(len(shapes) - 1, level_in_force(shapes[-1], lv)):
                         cases.append((len(shapes) - 1, lv))
